@@ -98,12 +98,21 @@ def _execute_run(desc: dict, deviations, want: tuple) -> dict:
         S.ACTIVE = psched
         psched.adopt_current_thread("main")
         try:
-            W.run_engine(pctx)
+            if pdesc.get("config", {}).get("entry") == "cli":
+                W.run_cli(pctx)
+            else:
+                W.run_engine(pctx)
             psched.drain()
         finally:
             psched.finished = True
             S.ACTIVE = None
         result["prefix_events"] = len(pctx.delivered)
+        between = desc.get("between") or {}
+        if between.get("sanitization_extend"):
+            # user code customising the sanitisation key list between two runs in one process (public API)
+            import schemathesis
+
+            schemathesis.sanitization.extend(keys_to_sanitize=list(between["sanitization_extend"]))
     W.reset_process_state(desc)
     universe = Universe(desc["universe"])
     peer = Peer(universe, desc.get("behaviour"))
